@@ -46,6 +46,9 @@ func corpusUnions() []*modSpec {
 		mk("union-not-analysed", "package models\n\ntype U1 interface{ is1() }\ntype U2 interface{ is2() }\n\ntype A struct{ X int }\n\nfunc (A) is1() {}\nfunc (A) is2() {}\n\ntype S struct{ V1 U1 }\n", modFile{"other.go", "package models\n\ntype Hidden struct{ V U2 }\n"}),
 		mk("union-through-alias", "package models\n\ntype U interface{ isU() }\n\ntype A struct{ X int }\n\nfunc (A) isU() {}\n\ntype AliasA = A\n\ntype S struct {\n\tDirect A\n\tVia AliasA\n\tV U\n}\n"),
 		mk("union-alias-first", "package models\n\ntype U interface{ isU() }\n\ntype A struct{ X int }\n\nfunc (A) isU() {}\n\ntype AliasA = A\n\ntype S struct {\n\tVia AliasA\n\tDirect A\n\tV U\n}\n"),
+		mk("union-same-local-name", "package models\n\nimport (\n\t\"example.com/org/models/shapes\"\n\t\"example.com/org/models/ui\"\n)\n\ntype Circle struct{ Local bool }\n\ntype App struct {\n\tS shapes.Shape\n\tW ui.Circle\n\tL Circle\n\tC shapes.Circle\n}\n",
+			modFile{"shapes/shapes.go", "package shapes\n\ntype Shape interface{ isShape() }\n\ntype Circle struct{ R int }\ntype Square struct{ S int }\n\nfunc (Circle) isShape() {}\nfunc (Square) isShape() {}\n"},
+			modFile{"ui/ui.go", "package ui\n\ntype Circle struct{ Label string }\n\ntype Square int\n"}),
 		mk("union-empty-interface-named", "package models\n\ntype Any interface{}\n\ntype A struct{ X int }\ntype N int\n\ntype S struct{ V Any }\n"),
 		mk("union-foreign-implementer", "package models\n\nimport \"example.com/org/models/sub\"\n\ntype U interface{ IsU() }\n\ntype A struct{ X int }\n\nfunc (A) IsU() {}\n\ntype S struct {\n\tV U\n\tF sub.F\n}\n",
 			modFile{"sub/sub.go", "package sub\n\ntype F struct{ Z int }\n\nfunc (F) IsU() {}\n"}),
@@ -107,6 +110,7 @@ func corpusCrash() []*modSpec {
 		mk("one-letter-subpackage", std, "models", "import \"example.com/org/models/s\"\n\ntype S struct{ V s.T; E s.E }\n", modFile{"s/s.go", "package s\n\ntype T struct{ X int }\ntype E int\nconst (\n\tEA E = iota\n\tEB\n)\n"}),
 		mk("short-package-name", "example.com/org/m", "m", "type U interface{ isU() }\ntype A struct{ X int }\nfunc (A) isU() {}\ntype S struct{ V U; L []int }\n"),
 		mk("recursive-named-containers", std, "models", "type Tree map[string]Tree\ntype MA map[string]MB\ntype MB map[int]MA\ntype Nest []Nest\ntype Deep map[string][]Deep\n\ntype S struct {\n\tT Tree\n\tA MA\n\tN Nest\n\tD Deep\n}\n"),
+		mk("nullable-wrapper-of-named-time", std, "models", "import \"time\"\n\ntype Birthday time.Time\ntype Date time.Time\n\ntype OptBirthday struct {\n\tValid bool\n\tDate Birthday\n}\n\ntype NullDate struct {\n\tD Date\n\tValid bool\n}\n\ntype Person struct {\n\tId int64\n\tB OptBirthday\n\tD NullDate\n}\n"),
 		mk("multi-name-const", std, "models", "type K int\n\nconst KA, KB K = 0, 1\n\ntype S struct{ V K }\n"),
 		mk("generic-basic-arg", std, "models", "type S struct {\n\tA Generic[int]\n\tB Generic[string]\n}\n", modFile{"other.go", "package models\n\ntype Generic[T any] struct {\n\tV T\n\tValid bool\n}\n"}),
 		mk("generic-named-arg", std, "models", "type IdX int64\ntype S struct {\n\tA Generic[IdX]\n}\n", modFile{"other.go", "package models\n\ntype Generic[T any] struct {\n\tV T\n\tValid bool\n}\n"}),
